@@ -126,6 +126,16 @@ def _collapse_postconditions(
     return base_postconditions + postconditions
 
 
+def _base_provides(base: type, key: str) -> bool:
+    """
+    Check whether the ``base`` (or one of its ancestors) provides the attribute ``key`` to its instances.
+
+    We can not use ``hasattr(base, key)`` since it also finds the attributes of the *meta-class*
+    (*e.g.*, ``__call__``, ``register`` or ``mro``) which are not provided to the instances at all.
+    """
+    return any(key in vars(klass) for klass in base.__mro__)
+
+
 def _decorate_namespace_function(
     bases: List[type], namespace: MutableMapping[str, Any], key: str
 ) -> None:
@@ -164,7 +174,7 @@ def _decorate_namespace_function(
 
         bases_have_func = False
         for base in bases:
-            if hasattr(base, key):
+            if _base_provides(base, key):
                 bases_have_func = True
 
                 # Check if there is a checker function in the base class
@@ -243,7 +253,7 @@ def _decorate_namespace_property(
 
         bases_have_func = False
         for base in bases:
-            if hasattr(base, key):
+            if _base_provides(base, key):
                 base_property = getattr(base, key)
                 assert isinstance(
                     base_property, property
